@@ -573,7 +573,7 @@ def _make_epc_qr_data(name, iban, amount, text=None, reference=None, bic=None,
         raise ValueError(f'Invalid purpose, 4 characters are allowed, got "{purpose}"')
     # A float is taken by its shortest decimal representation (999999999.99 is in range)
     amount = decimal.Decimal(repr(amount) if isinstance(amount, float) else amount)
-    if not min_amount <= amount <= max_amount:
+    if not amount.is_finite() or not min_amount <= amount <= max_amount:
         raise ValueError(f'Invalid amount, must be in bigger or equal {min_amount} and less or equal {max_amount}')
     tmp_data = ['BCD',  # Service tag
                 '002',  # Version
